@@ -26,7 +26,7 @@ func isVrtMethod(fn *ssa.Function) bool {
 
 var pureIntrinsics = map[string]bool{
 	"math.IsNaN": true, "math.NaN": true, "math.Float64bits": true, "math.Float64frombits": true,
-	"math.Float32bits": true, "math.Float32frombits": true, "math.IsInf": true, "math.Inf": true,
+	"math.Float32bits": true, "math.Float32frombits": true, "math.IsInf": true, "math.Inf": true, "math.Abs": true, "math.Max": true, "math.Min": true,
 }
 
 func isPureIntrinsic(name string) bool { return pureIntrinsics[name] }
@@ -103,6 +103,19 @@ func (m *Machine) intercept(fn *ssa.Function, args []Value) (Value, bool) {
 		return c.FBits(args[0].(*Term)), true
 	case "math.Float64frombits", "math.Float32frombits":
 		return c.FFromBits(args[0].(*Term)), true
+	case "math.Abs":
+		f := args[0].(*Term)
+		return c.Ite(c.FCmp(OFLt, f, c.Zero(f.Sort)), c.FNeg(f), f), true
+	case "math.Max", "math.Min":
+		x, y := args[0].(*Term), args[1].(*Term)
+		nan := c.Or(c.FIsNaN(x), c.FIsNaN(y))
+		var pick *Term
+		if name == "math.Max" {
+			pick = c.Ite(c.FCmp(OFLt, x, y), y, x)
+		} else {
+			pick = c.Ite(c.FCmp(OFLt, y, x), y, x)
+		}
+		return c.Ite(nan, c.F64b(0x7FF8000000000001), pick), true
 	case "math.Trunc", "math.Floor":
 		m.unsupported(name)
 	// ---- errors / fmt
